@@ -135,4 +135,36 @@ example : ∃ σ dv, solve 5 [.equal (.tvar (.quant 0)) (.dim [(.base "Length", 
   refine ⟨[(.quant 0, .dim [(.base "Length", 1)]), (.quant 1, .dim [(.base "Length", 1)])], [], ?_, rfl⟩
   rfl
 
+/-- **No `Dim` obligation is dropped as trivial.**  `ConstraintSet::add` discards a constraint that
+`try_trivial_resolution` declares satisfied.  For `T: Dim` constraints this happens exactly for dimension types
+that mention neither a type variable nor a type *parameter*: as soon as a parameter occurs (`fn f<T>(x: T) = -x`
+asks for `T: Dim`), the constraint reaches the solver, which records the parameter as a dimension variable, and
+`check_statement` can then demand its `Dim` bound.  (Before numbat's repair 64bad51 the closed type `T` was
+declared trivially satisfied; the `solve` correspondence stream with closed `isd` systems ties this definition
+to the code.) -/
+theorem isDType_trivially_satisfied_iff (t : Ty) :
+    (Constraint.isDType t).trivial = .satisfied ↔ ∃ d, t = .dim d ∧ dTypeVars true d = [] := by
+  constructor
+  · intro h
+    cases t with
+    | dim d =>
+      refine ⟨d, rfl, ?_⟩
+      simp only [Constraint.trivial] at h
+      split at h
+      · rename_i he; simpa using he
+      · cases h
+    | _ =>
+      simp only [Constraint.trivial] at h
+      split at h <;> cases h
+  · rintro ⟨d, rfl, hd⟩
+    simp [Constraint.trivial, hd]
+
+/-- a type parameter keeps its obligation: `T: Dim` for the closed type `T²/Length` is not trivial -/
+example : (Constraint.isDType (.dim [(.tpar "T", 2), (.base "Length", -1)])).trivial = .unknown := by
+  decide
+
+/-- … while `Length: Dim` is -/
+example : (Constraint.isDType (.dim [(.base "Length", 1)])).trivial = .satisfied := by
+  decide
+
 end NumbatModel.Types
